@@ -301,8 +301,9 @@ def stepCore (s : N) : Op → N × Res
     if s.parent e ≠ none then (s, .value) else
     s.setNsCore e p
   | .delNs e =>
-    if s.parent e ≠ none then (s, .value) else
+    -- `__delitem__` raises KeyError for an absent key before any listener is asked
     if (s.info e).ns = none then (s, .key) else
+    if s.parent e ≠ none then (s, .value) else
     (s.dropNs e, .ok)
   | .setDefault p => ({ s with dflt := p }, .ok)
   | .createIn _ _ _ _ => (s, .ok)     -- handled by `step`
